@@ -1,29 +1,80 @@
 ---------------------------- MODULE PropertySteps ----------------------------
-(* C14 - the property code path of bus/object.go as the goroutines really run it:
-   validate, save and notify are separate steps, executed by
+(* C14 - the property code path of bus/object.go + bus/signal.go as the goroutines
+   really run it: validate, save and notify are separate steps, the notification is
+   a snapshot of the subscriber table followed by one send per subscriber of the
+   snapshot, and the table changes meanwhile.  Executed by
 
-     "m"            the object's mailbox goroutine: remote setProperty / property
-                    calls, one at a time (mailbox.go l.28-44)
+     "m"            the object's mailbox goroutine: remote setProperty / property /
+                    registerEvent / unregisterEvent calls, one at a time
+                    (mailbox.go l.28-44)
      u \in Updaters  goroutines of the service calling the generated Update<Prop>
-                    helper (stubObject.UpdateProperty, object.go l.29-49), which
+                    helper (stubObject.UpdateProperty, object.go l.29-53), which
                     runs on the caller's goroutine without any serialisation
+     subscribers    each on its own connection; its goroutine on the server side
+                    runs the disconnection closer (signal.go l.86-90)
 
-   step        | code
-   ------------+--------------------------------------------------------------
-   Start(a,n)  | the call is made (remote: the request is taken from the mailbox)
-   Validate(a) | onPropertyChange(name, data)   (gate prop.{set,update}.validate)
-   Save(a)     | saveProperty under propertiesMutex (gate prop.*.save) - the
-               | linearization point of an accepted write
-   Notify(a)   | signalHandler.UpdateProperty -> UpdateSignal: one event per
-               | subscriber (gate prop.*.notify); then the call returns
-   Get         | objectImpl.Property under RLock, served by the mailbox goroutine
+   step          | code
+   --------------+--------------------------------------------------------------
+   Start(a,n)    | the call is made (remote: the request is taken from the mailbox)
+   Validate(a)   | onPropertyChange(name, data)   (gate prop.{set,update}.validate)
+   Save(a)       | saveProperty under propertiesMutex (gate prop.*.save) - the
+                 | linearization point of an accepted write
+   Snapshot(a)   | signalHandler.UpdateProperty -> UpdateSignal l.213-221: the
+                 | registrations of this signal id are COPIED in slice order under
+                 | signalsMutex.RLock (gate prop.*.notify sits before the call)
+   Send(a)       | l.223-233: replyEvent to the next user of the copy, outside the
+                 | lock (gate signal.update.send, once per user); after the last
+                 | one the call returns
+   Get           | objectImpl.Property under RLock, served by the mailbox goroutine
+   SubReq/Register/SubAck(s)      | registerEvent: taken from the mailbox (gate
+                 | signal.register), addSignalUser appends under signalsMutex, reply
+   UnsubReq/Unregister/UnsubAck(s)| unregisterEvent: gate signal.unregister,
+                 | forgetSignalUser = SWAP-REMOVE under signalsMutex (l.117-121:
+                 | signals[i] = signals[last]; truncate), gate signal.unregister.ack,
+                 | reply
+   Disconnect(s) | the subscriber's connection closes: endpoint.closeWith -> the
+                 | closer of its registration -> forgetSignalUser (same swap-remove)
+
+   The mailbox goroutine serves one mail at a time, hence a (un)registration can
+   only fall inside the emission of a *service-side* update; a disconnection can
+   fall inside any emission.
 
    Checked: (1) every step is a step of the sequential register Property.tla or
-   leaves it unchanged (refinement, the linearization points above), (2) every
-   subscriber receives exactly the accepted writes - each once - and nothing else;
-   (3) NOT implied (and not demanded by the property): events arrive in write
-   order - EventsInWriteOrder is violated by `u saves 3; m saves 1; m notifies 1;
-   u notifies 3`, see MCPropertySteps_order.cfg.
+   leaves it unchanged (refinement, the linearization points above);
+   (2) event accounting per subscriber while the set of subscribers changes, as
+   C14 states it:
+     StableExactlyOnce  a subscriber whose subscription was acknowledged before the
+                        write was accepted (Save) and that has not asked to leave
+                        (unregister request, disconnection) before the emission of
+                        that write ended has received exactly one event for it;
+     NeverTwice         nobody - stable, leaving or joining - ever receives two
+                        events for one accepted write;
+     NoEventOutsideWindow  an event for a write only reaches somebody who was
+                        subscribed, joining or leaving at some moment of the write's
+                        emission (a leaving/joining subscriber may or may not
+                        receive it: no verdict);
+     EventCarriesValue, NoForeignEvent (a subscriber of another signal of the same
+                        object never receives the property's events),
+     OrderPerWriter     the events of one writer arrive in the order of its writes;
+   (3) NOT implied (and not demanded by the property): events of different writers
+   arrive in write order - EventsInWriteOrder is violated by `u saves 3; m saves 1;
+   m notifies 1; u notifies 3`, see MCPropertySteps_order.cfg.
+
+   Deviations (DESIGN.md 3.3; FALSE in the property configurations):
+     Dev_IterateLiveSlice     the emitter does not copy: it keeps the slice header
+                              (array, len at snapshot time) and reads element k of
+                              the LIVE backing array when it reaches it, filtering on
+                              the signal id there.  Swap-remove then aliases: the last
+                              registration is moved into a slot not yet visited and is
+                              still at its old index => NeverTwice is violated (or a
+                              later append hides it => StableExactlyOnce).  This is a
+                              vacuity guard of the accounting invariants
+                              (MCPropertySteps_live.cfg must fail).
+     Dev_SendErrorFailsWrite  what the pinned code does: the error of a send to a
+                              disconnected subscriber of the snapshot becomes the
+                              result of setProperty / Update<Prop>, although the write
+                              was accepted, saved and broadcast to the others
+                              (AcceptedWriteReturnsOK; signal.go l.230-231).
 
    The complete schedules of this module are exported by GenPropertySteps and
    forced on the real code with the gates.                                     *)
@@ -31,9 +82,19 @@ EXTENDS Integers, Sequences, FiniteSets, TLC
 
 CONSTANTS
   Updaters,     \* service-side goroutines
-  Subs,         \* subscribers (registered before, unregistered after the run)
+  Subs,         \* subscribers, each on its own connection
   ValuesOf,     \* [Actors -> SUBSET Int]: the values an actor may write (disjoint)
-  MaxOps        \* [Actors -> Nat]: number of calls per actor
+  MaxOps,       \* [Actors -> Nat]: number of calls per actor
+  InitTables,   \* set of Seq(Subs): the possible subscriber tables at the start (slice
+                \* order); these subscribers are registered and acknowledged
+  Foreign,      \* SUBSET Subs: their registration is for another signal of the object
+  Movers,       \* SUBSET Subs: may unsubscribe / subscribe during the run
+  Closers,      \* SUBSET Subs: may disconnect abruptly
+  MaxMoves,     \* Nat: leave / join requests in one behaviour
+  Atomic,       \* BOOLEAN: coarse emission (snapshot + all sends in one step); only for
+                \* the schedule export without churn
+  Dev_IterateLiveSlice,
+  Dev_SendErrorFailsWrite
 
 Actors == {"m"} \cup Updaters
 \* configurations (cfg files cannot write functions or negative numbers)
@@ -43,67 +104,223 @@ ValuesT == "m" :> {1, 2, -1} @@ "u1" :> {3, -3} @@ "u2" :> {4}
 OpsT    == "m" :> 2 @@ "u1" :> 1 @@ "u2" :> 1
 OpsT2   == "m" :> 3 @@ "u1" :> 2 @@ "u2" :> 1
 OpsT3   == "m" :> 3 @@ "u1" :> 2 @@ "u2" :> 2
+\* churn configurations: few writes, three subscribers + one of another signal
+ValuesC == "m" :> {1} @@ "u1" :> {3} @@ "u2" :> {4}
+OpsC    == "m" :> 1 @@ "u1" :> 1 @@ "u2" :> 0
+OpsCu   == "m" :> 0 @@ "u1" :> 1 @@ "u2" :> 0          \* one service-side update
+OpsCm   == "m" :> 1 @@ "u1" :> 0 @@ "u2" :> 0          \* one remote set
+OpsC2   == "m" :> 1 @@ "u1" :> 2 @@ "u2" :> 0
+OpsC3   == "m" :> 1 @@ "u1" :> 1 @@ "u2" :> 1
+ValuesC2 == "m" :> {1} @@ "u1" :> {3, 5} @@ "u2" :> {4}
+TabNone == {<<"s1", "s2">>}                              \* the round-1 configurations
+Tab3    == {<<"s1", "s2", "s3">>}
+Tab3f   == {<<"s1", "s2", "s3">>, <<"f", "s1", "s2", "s3">>, <<"s1", "f", "s2", "s3">>,
+            <<"s1", "s2", "f", "s3">>, <<"s1", "s2", "s3", "f">>, <<"s1", "s2">>}
+Perm3   == {<<"s1", "s2", "s3">>, <<"s1", "s3", "s2">>, <<"s2", "s1", "s3">>,
+            <<"s2", "s3", "s1">>, <<"s3", "s1", "s2">>, <<"s3", "s2", "s1">>}
+Tab3g   == Perm3 \cup {<<"s1", "f", "s2", "s3">>, <<"f", "s2", "s1", "s3">>, <<"s1", "s2">>, <<"s2", "s3">>}
 ValidatorOK(n) == n >= 0
 DeclSig == "i"
 LE32(n) == << n % 256, (n \div 256) % 256, (n \div 65536) % 256, (n \div 16777216) % 256 >>
 I32(n) == [sig |-> DeclSig, bytes |-> LE32(n)]
 
+PropSig  == "p"                                 \* the property's uid as a signal id
+OtherSig == "x"                                 \* another signal of the same object
+SigOf(s) == IF s \in Foreign THEN OtherSig ELSE PropSig
+Entry(s) == [s |-> s, sig |-> SigOf(s)]
+
 VARIABLES
   val, writes, ret, last,   \* as in Property
-  delivered,                \* [Subs -> Seq(value)] events in arrival order
-  pc,                       \* [Actors -> {"idle","validate","save","notify"}]
+  delivered,                \* [Subs -> Seq([w, v])] events in arrival order: write index, value
+  pc,                       \* [Actors -> {"idle","validate","save","notify","send"}]; for "m"
+                            \* also "reg","regack","unreg","unregack"
   cur,                      \* [Actors -> Int] value of the call in progress
-  nops                      \* [Actors -> Nat] calls started
+  nops,                     \* [Actors -> Nat] calls started
+  wid,                      \* [Actors -> Nat] index in `writes` of the call in progress
+  table,                    \* Seq([s, sig]): signalHandler.signals in slice order
+  stale,                    \* the backing array beyond len(signals) (kept only under
+                            \* Dev_IterateLiveSlice: nobody else can see it)
+  em,                       \* [Actors -> [tgt, q, k, n, failed]] the emission in progress:
+                            \* tgt = the user the emitter is about to send to, q = rest of
+                            \* the copy (conforming), k/n = next index / length of the kept
+                            \* slice header (deviation), failed = a send returned an error
+  cst,                      \* [Subs -> {"out","joining","in","leaving","closed"}] the
+                            \* subscriber as it sees itself (acknowledgements)
+  ms,                       \* the subscriber whose request the mailbox goroutine is serving
+  moves,                    \* leave / join requests made
+  cret,                     \* [Actors -> [saved, e]] how the last returned call ended
+  \* observation only (ghosts)
+  writer,                   \* Seq(Actors): who made write i
+  stable,                   \* Seq(SUBSET Subs): entitled to the event of write i
+  may                       \* Seq(SUBSET Subs): allowed to receive the event of write i
 
-vars == <<val, writes, ret, last, delivered, pc, cur, nops>>
+vars == <<val, writes, ret, last, delivered, pc, cur, nops, wid, table, stale, em, cst, ms,
+          moves, cret, writer, stable, may>>
+regvars == <<val, writes, ret, last>>
+subvars == <<table, stale, cst, ms, moves>>
+ghosts  == <<writer, stable, may>>
 
 NoBytes == <<>>
 OK  == [e |-> "", sig |-> "", bytes |-> NoBytes]
 Err == [e |-> "err", sig |-> "", bytes |-> NoBytes]
+NoEm == [tgt |-> "", q |-> <<>>, k |-> 0, n |-> 0, failed |-> FALSE]
 
 Init == /\ val = [set |-> FALSE, sig |-> "", bytes |-> NoBytes]
         /\ writes = <<>> /\ ret = OK /\ last = [k |-> "init", w |-> FALSE]
         /\ delivered = [s \in Subs |-> <<>>]
         /\ pc = [a \in Actors |-> "idle"] /\ cur = [a \in Actors |-> 0]
-        /\ nops = [a \in Actors |-> 0]
+        /\ nops = [a \in Actors |-> 0] /\ wid = [a \in Actors |-> 0]
+        /\ \E t \in InitTables :
+             /\ table = [i \in 1..Len(t) |-> Entry(t[i])]
+             /\ cst = [s \in Subs |-> IF \E i \in 1..Len(t) : t[i] = s THEN "in" ELSE "out"]
+        /\ stale = <<>> /\ em = [a \in Actors |-> NoEm] /\ ms = "" /\ moves = 0
+        /\ cret = [a \in Actors |-> [saved |-> FALSE, e |-> ""]]
+        /\ writer = <<>> /\ stable = <<>> /\ may = <<>>
 
+\* ---- the subscriber table --------------------------------------------------------
+InTable(s) == \E i \in 1..Len(table) : table[i].s = s
+PosOf(s)   == CHOOSE i \in 1..Len(table) : table[i].s = s
+Backing    == table \o stale                 \* the array the slice header points into
+\* append(o.signals, user): capacity 10 is never exceeded here, the array is reused
+TableAdd(s) == /\ table' = Append(table, Entry(s))
+               /\ stale' = IF stale = <<>> THEN <<>> ELSE Tail(stale)
+\* forgetSignalUser: signals[i] = signals[last]; signals = signals[:last]
+TableRemove(s) ==
+  LET i == PosOf(s)
+      n == Len(table)
+  IN /\ table' = [j \in 1..(n - 1) |-> IF j = i THEN table[n] ELSE table[j]]
+     /\ stale' = IF Dev_IterateLiveSlice THEN <<table[n]>> \o stale ELSE <<>>
+
+\* writes whose emission has not ended
+Open == {wid[a] : a \in {b \in Actors : pc[b] \in {"notify", "send"}}}
+Leave(s) == stable' = [i \in DOMAIN stable |-> IF i \in Open THEN stable[i] \ {s} ELSE stable[i]]
+Join(s)  == may' = [i \in DOMAIN may |-> IF i \in Open THEN may[i] \cup {s} ELSE may[i]]
+
+\* ---- writers -----------------------------------------------------------------------
 Start(a, n) == /\ pc[a] = "idle" /\ nops[a] < MaxOps[a] /\ n \in ValuesOf[a]
                /\ pc' = [pc EXCEPT ![a] = "validate"] /\ cur' = [cur EXCEPT ![a] = n]
                /\ nops' = [nops EXCEPT ![a] = @ + 1]
-               /\ UNCHANGED <<val, writes, ret, last, delivered>>
+               /\ UNCHANGED <<regvars, delivered, wid, em, cret, subvars, ghosts>>
 
 OpKind(a) == IF a = "m" THEN "set" ELSE "update"
 
 Validate(a) == /\ pc[a] = "validate"
                /\ IF ValidatorOK(cur[a])
                   THEN /\ pc' = [pc EXCEPT ![a] = "save"]
-                       /\ UNCHANGED <<ret, last>>
+                       /\ UNCHANGED <<ret, last, cret>>
                   ELSE /\ pc' = [pc EXCEPT ![a] = "idle"]        \* the call returns the error
                        /\ ret' = Err /\ last' = [k |-> OpKind(a) \o "invalid", w |-> TRUE]
-               /\ UNCHANGED <<val, writes, delivered, cur, nops>>
+                       /\ cret' = [cret EXCEPT ![a] = [saved |-> FALSE, e |-> "err"]]
+               /\ UNCHANGED <<val, writes, delivered, cur, nops, wid, em, subvars, ghosts>>
 
 Save(a) == /\ pc[a] = "save"
            /\ val' = [set |-> TRUE, sig |-> DeclSig, bytes |-> LE32(cur[a])]
            /\ writes' = Append(writes, I32(cur[a]))
            /\ ret' = OK /\ last' = [k |-> OpKind(a), w |-> TRUE]
            /\ pc' = [pc EXCEPT ![a] = "notify"]
-           /\ UNCHANGED <<delivered, cur, nops>>
+           /\ wid' = [wid EXCEPT ![a] = Len(writes) + 1]
+           /\ writer' = Append(writer, a)
+           /\ stable' = Append(stable, {s \in Subs \ Foreign : cst[s] = "in"})
+           /\ may' = Append(may, {s \in Subs \ Foreign : cst[s] \in {"joining", "in", "leaving"}})
+           /\ UNCHANGED <<delivered, cur, nops, em, cret, subvars>>
 
-Notify(a) == /\ pc[a] = "notify"
-             /\ delivered' = [s \in Subs |-> Append(delivered[s], I32(cur[a]))]
-             /\ pc' = [pc EXCEPT ![a] = "idle"]                  \* the call returns nil
-             /\ UNCHANGED <<val, writes, ret, last, cur, nops>>
+\* the users of the property in slice order (the copy made under the read lock)
+Copy == LET t == SelectSeq(table, LAMBDA e : e.sig = PropSig) IN [i \in 1..Len(t) |-> t[i].s]
+\* deviation: the next element at or after index k of the live array that passes the
+\* filter (0 = none below n)
+NextLive(k, n) == LET c == {j \in k..n : j <= Len(Backing) /\ Backing[j].sig = PropSig}
+                  IN IF c = {} THEN 0 ELSE CHOOSE j \in c : \A i \in c : j <= i
+
+Return(a, failed) ==
+  /\ pc' = [pc EXCEPT ![a] = "idle"]
+  /\ em' = [em EXCEPT ![a] = NoEm]
+  /\ cret' = [cret EXCEPT ![a] = [saved |-> TRUE,
+                                  e |-> IF failed /\ Dev_SendErrorFailsWrite THEN "err" ELSE ""]]
+
+\* the emitter moves on to the next user (reads it, parks before sending) or returns
+Advance(a, q, k, n, failed) ==
+  IF Dev_IterateLiveSlice
+  THEN LET j == NextLive(k, n) IN
+       IF j = 0 THEN Return(a, failed)
+       ELSE /\ em' = [em EXCEPT ![a] = [tgt |-> Backing[j].s, q |-> <<>>, k |-> j + 1, n |-> n, failed |-> failed]]
+            /\ pc' = [pc EXCEPT ![a] = "send"] /\ UNCHANGED cret
+  ELSE IF q = <<>> THEN Return(a, failed)
+       ELSE /\ em' = [em EXCEPT ![a] = [tgt |-> Head(q), q |-> Tail(q), k |-> 0, n |-> 0, failed |-> failed]]
+            /\ pc' = [pc EXCEPT ![a] = "send"] /\ UNCHANGED cret
+
+Snapshot(a) == /\ ~Atomic /\ pc[a] = "notify"
+               /\ Advance(a, Copy, 1, Len(table), FALSE)
+               /\ UNCHANGED <<regvars, delivered, cur, nops, wid, subvars, ghosts>>
+
+Event(a) == [w |-> wid[a], v |-> I32(cur[a])]
+\* a closed connection receives nothing: the send fails
+Send(a) == /\ pc[a] = "send"
+           /\ LET s == em[a].tgt IN
+              /\ delivered' = IF cst[s] = "closed" THEN delivered
+                              ELSE [delivered EXCEPT ![s] = Append(@, Event(a))]
+              /\ Advance(a, em[a].q, em[a].k, em[a].n, em[a].failed \/ cst[s] = "closed")
+           /\ UNCHANGED <<regvars, cur, nops, wid, subvars, ghosts>>
+
+\* coarse emission: no other step between the snapshot and the last send
+Notify(a) == /\ Atomic /\ pc[a] = "notify"
+             /\ LET c == Copy
+                    T == {c[i] : i \in 1..Len(c)}
+                IN /\ delivered' = [s \in Subs |-> IF s \in T /\ cst[s] # "closed"
+                                                   THEN Append(delivered[s], Event(a)) ELSE delivered[s]]
+                   /\ Return(a, \E s \in T : cst[s] = "closed")
+             /\ UNCHANGED <<regvars, cur, nops, wid, subvars, ghosts>>
 
 \* remote read: served by the mailbox goroutine between two remote calls
 Get == /\ pc["m"] = "idle" /\ nops["m"] < MaxOps["m"]
        /\ nops' = [nops EXCEPT !["m"] = @ + 1]
        /\ ret' = IF val.set THEN [e |-> "", sig |-> val.sig, bytes |-> val.bytes] ELSE Err
        /\ last' = [k |-> "get", w |-> FALSE]
-       /\ UNCHANGED <<val, writes, delivered, pc, cur>>
+       /\ UNCHANGED <<val, writes, delivered, pc, cur, wid, em, cret, subvars, ghosts>>
+
+\* ---- subscribers -------------------------------------------------------------------
+CanMove(s) == moves < MaxMoves /\ s \in Movers
+Unch == <<regvars, delivered, cur, nops, wid, em, cret, writer>>
+
+SubReq(s) == /\ CanMove(s) /\ cst[s] = "out" /\ pc["m"] = "idle"
+             /\ cst' = [cst EXCEPT ![s] = "joining"] /\ ms' = s /\ moves' = moves + 1
+             /\ pc' = [pc EXCEPT !["m"] = "reg"]
+             /\ IF s \in Foreign THEN UNCHANGED may ELSE Join(s)
+             /\ UNCHANGED <<Unch, table, stale, stable>>
+Register == /\ pc["m"] = "reg"
+            /\ TableAdd(ms)
+            /\ pc' = [pc EXCEPT !["m"] = "regack"]
+            /\ UNCHANGED <<Unch, cst, ms, moves, stable, may>>
+SubAck == /\ pc["m"] = "regack"
+          /\ cst' = [cst EXCEPT ![ms] = "in"] /\ ms' = ""
+          /\ pc' = [pc EXCEPT !["m"] = "idle"]
+          /\ UNCHANGED <<Unch, table, stale, moves, stable, may>>
+
+UnsubReq(s) == /\ CanMove(s) /\ cst[s] = "in" /\ pc["m"] = "idle"
+               /\ cst' = [cst EXCEPT ![s] = "leaving"] /\ ms' = s /\ moves' = moves + 1
+               /\ pc' = [pc EXCEPT !["m"] = "unreg"]
+               /\ Leave(s)
+               /\ UNCHANGED <<Unch, table, stale, may>>
+Unregister == /\ pc["m"] = "unreg"
+              /\ TableRemove(ms)
+              /\ pc' = [pc EXCEPT !["m"] = "unregack"]
+              /\ UNCHANGED <<Unch, cst, ms, moves, stable, may>>
+UnsubAck == /\ pc["m"] = "unregack"
+            /\ cst' = [cst EXCEPT ![ms] = "out"] /\ ms' = ""
+            /\ pc' = [pc EXCEPT !["m"] = "idle"]
+            /\ UNCHANGED <<Unch, table, stale, moves, stable, may>>
+
+\* abrupt disconnection of an acknowledged subscriber; the server forgets it
+Disconnect(s) == /\ moves < MaxMoves /\ s \in Closers /\ cst[s] = "in"
+                 /\ cst' = [cst EXCEPT ![s] = "closed"] /\ moves' = moves + 1
+                 /\ TableRemove(s)
+                 /\ Leave(s)
+                 /\ UNCHANGED <<Unch, pc, ms, may>>
 
 Next == \/ \E a \in Actors : \/ \E n \in ValuesOf[a] : Start(a, n)
-                             \/ Validate(a) \/ Save(a) \/ Notify(a)
+                             \/ Validate(a) \/ Save(a) \/ Snapshot(a) \/ Send(a) \/ Notify(a)
         \/ Get
+        \/ \E s \in Subs : SubReq(s) \/ UnsubReq(s) \/ Disconnect(s)
+        \/ Register \/ SubAck \/ Unregister \/ UnsubAck
 Spec == Init /\ [][Next]_vars
 
 \* ---- (1) refinement of the sequential register ---------------------------------
@@ -119,18 +336,38 @@ RegInvariants == /\ Reg!TypedReads /\ Reg!StoredTyped /\ Reg!ReadsLastWrite
                  /\ Reg!AcceptedWritesValidated /\ Reg!OneEventPerAcceptedWrite
 
 \* ---- (2) events ------------------------------------------------------------------
-Count(seq, x) == Cardinality({i \in 1..Len(seq) : seq[i] = x})
+Got(s, i) == Cardinality({j \in 1..Len(delivered[s]) : delivered[s][j].w = i})
 Quiescent == \A a \in Actors : pc[a] = "idle"
-\* nothing but accepted writes, none twice
+Closed(i) == i \in 1..Len(writes) /\ i \notin Open        \* the emission of write i has ended
+
+NeverTwice == \A s \in Subs : \A i \in 1..Len(writes) : Got(s, i) <= 1
+StableExactlyOnce == \A i \in 1..Len(writes) : Closed(i) => \A s \in stable[i] : Got(s, i) = 1
+NoEventOutsideWindow == \A s \in Subs : \A i \in 1..Len(writes) : Got(s, i) > 0 => s \in may[i]
+EventCarriesValue == \A s \in Subs : \A j \in 1..Len(delivered[s]) :
+                        /\ delivered[s][j].w \in 1..Len(writes)
+                        /\ delivered[s][j].v = writes[delivered[s][j].w]
+NoForeignEvent == \A s \in Foreign : delivered[s] = <<>>
+OrderPerWriter == \A s \in Subs : \A j, k \in 1..Len(delivered[s]) :
+                     (j < k /\ writer[delivered[s][j].w] = writer[delivered[s][k].w])
+                        => delivered[s][j].w < delivered[s][k].w
+Accounting == /\ NeverTwice /\ StableExactlyOnce /\ NoEventOutsideWindow
+              /\ EventCarriesValue /\ NoForeignEvent /\ OrderPerWriter
+\* the result of a call that saved is success
+AcceptedWriteReturnsOK == \A a \in Actors : cret[a].saved => cret[a].e = ""
+AtMostOneRegistration == \A i, j \in 1..Len(table) : table[i].s = table[j].s => i = j
+TableMatchesAcks == \A s \in Subs : /\ cst[s] = "in" => InTable(s)
+                                    /\ cst[s] \in {"out", "closed"} => ~InTable(s)
+
+\* the round-1 formulations (no churn: every subscriber is stable for every write)
+Count(seq, x) == Cardinality({i \in 1..Len(seq) : seq[i] = x})
+Values(s) == [j \in 1..Len(delivered[s]) |-> delivered[s][j].v]
 EventsAreWrites == \A s \in Subs : \A i \in 1..Len(delivered[s]) :
-                      Count(delivered[s], delivered[s][i]) <= Count(writes, delivered[s][i])
-\* once every call has returned, each accepted write has produced exactly one event
-OneEventPerWriteAtRest == Quiescent => \A s \in Subs : \A i \in 1..Len(writes) :
-                             Count(delivered[s], writes[i]) = Count(writes, writes[i])
+                      Count(Values(s), delivered[s][i].v) <= Count(writes, delivered[s][i].v)
+OneEventPerWriteAtRest == Quiescent => \A i \in 1..Len(writes) : \A s \in stable[i] :
+                             Count(Values(s), writes[i]) = Count(writes, writes[i])
 \* an event is never ahead of its write
 NotifyAfterSave == \A s \in Subs : Len(delivered[s]) <= Len(writes)
-\* a returned accepted call has emitted its event (the call returns after Notify)
 \* ---- (3) not demanded, and false ---------------------------------------------------
 IsPrefix(p, q) == Len(p) <= Len(q) /\ SubSeq(q, 1, Len(p)) = p
-EventsInWriteOrder == \A s \in Subs : IsPrefix(delivered[s], writes)
+EventsInWriteOrder == \A s \in Subs : IsPrefix(Values(s), writes)
 =============================================================================
